@@ -14,22 +14,35 @@ def build_binary(repo, scratch):
     return out
 
 def work(args):
-    idx, smt2, timeout = args
+    """Decide one obligation: every conjunct of its goal separately (same hypotheses)."""
+    idx, smt2s, timeout = args
     from z3 import Solver, unsat, sat
     import time
-    sv = Solver()
-    sv.set("timeout", timeout)
-    sv.from_string(smt2)
-    t0 = time.time()
-    r = sv.check()
-    t = time.time() - t0
-    if r == unsat:
-        return idx, "discharged", t, ""
-    if r == sat:
-        mdl = sv.model()
-        txt = "\n".join("%s = %s" % (d.name(), mdl[d]) for d in sorted(mdl.decls(), key=lambda d: d.name())[:300])
-        return idx, "failed", t, txt
-    return idx, "undecided", t, ""
+    status, total, model = "discharged", 0.0, ""
+    for smt2 in smt2s:
+        sv = Solver()
+        sv.set("timeout", timeout)
+        sv.from_string(smt2)
+        t0 = time.time()
+        r = sv.check()
+        total += time.time() - t0
+        if r == unsat:
+            continue
+        if r == sat:
+            mdl = sv.model()
+            model = "\n".join("%s = %s" % (d.name(), mdl[d]) for d in sorted(mdl.decls(), key=lambda d: d.name())[:300])
+            return idx, "failed", total, model
+        status = "undecided"
+    return idx, status, total, model
+
+def conjuncts(g, depth=3):
+    from z3 import is_and
+    if depth > 0 and is_and(g):
+        out = []
+        for c in g.children():
+            out += conjuncts(c, depth - 1)
+        return out
+    return [g]
 
 def build_task(args):
     """Build one group of obligations in a worker; returns serialisable records (goal as SMT-LIB text)."""
@@ -44,11 +57,17 @@ def build_task(args):
         return {"error": "%s.%s%s: %s: %s" % (mod, fn, kw, type(e).__name__, str(e)[:500]), "trace": traceback.format_exc()[-1500:], "obls": [], "insns": 0}
     out = []
     for o in obls:
-        sv = Solver()
-        for h in o.hyps:
-            sv.add(h)
-        sv.add(Not(o.goal))
-        out.append({"kernel": o.kernel, "name": o.name, "props": o.props, "note": getattr(o, "note", ""), "smt2": sv.to_smt2()})
+        parts = conjuncts(o.goal)
+        if len(parts) > 96:
+            parts = [o.goal]
+        texts = []
+        for g in parts:
+            sv = Solver()
+            for h in o.hyps:
+                sv.add(h)
+            sv.add(Not(g))
+            texts.append(sv.to_smt2())
+        out.append({"kernel": o.kernel, "name": o.name, "props": o.props, "note": getattr(o, "note", ""), "smt2": texts})
     return {"obls": out, "insns": len(b.insns)}
 
 def all_tasks(prop=""):
